@@ -253,7 +253,8 @@ def native_replay(site):
     for prog in NATIVE_PROGRAMS.get(fam, ()):
         code, out, err = native.run_file(prog, subcmd=("check",))
         txt = out + err
-        if code == 0 and "Error" not in txt and "error" not in txt:
+        # `garden check` exits 1 for warnings too (unused function, unnecessary let): only an Error diagnostic counts
+        if code != 101 and not any(line.startswith("Error") for line in txt.splitlines()):
             clean.append(prog)
     return {"reproduced": bool(clean), "artefact": clean[:1] or list(NATIVE_PROGRAMS.get(fam, ()))[:1],
             "detail": f"{len(clean)} of {len(NATIVE_PROGRAMS.get(fam, ()))} ill-typed programs pass `garden check` without a diagnostic"}
